@@ -243,6 +243,16 @@ def main(pid, tier, seed):
                 failing = list(v[1]) if isinstance(v[1], (tuple, list)) else [v[1]]
                 verdict.violation(dict(ometa[t['tid']], clause='C04_markov_level+' + '+'.join(failing)),
                                   'Markov pre-terminal does not expand to its OMEN level: %s; %s' % (failing, core.short(ometa[t['tid']]['pt'])))
+    def corrupt(t):
+        if t['kind'] == 'pt' and len(t['lines']) >= 2:
+            t['lines'] = t['lines'][:-1]             # one guess missing, count unchanged
+            return t
+        if t['kind'] == 'limit' and len(t['lines']) >= 2 and t['lines'] != t['full']:
+            t['lines'] = t['lines'][:-1]             # one line short of min(N, total)
+            return t
+        return None
+    accepted = [t for t in traces if t['kind'] != 'gen' and verdicts[t['tid']][0] == 'ACCEPT']
+    selftest = core.binding_selftest('TrExpand.tla', accepted, corrupt, env={'UP_FILE': upfile})
     verdict.matcher('C09-F14-load-limit-ignores-restored-level',
                     lambda w: w.get('flags', {}).get('load') and w.get('cut_inside_markov') and w.get('clause') in ('C09_length', 'C09_prefix'))
     verdict.matcher('C09-F1-banner-empty-line',
@@ -269,7 +279,7 @@ def main(pid, tier, seed):
         'model_pt_space_instantiated': cat['NPT'],
         'impl_conformance': {'traces': kinds.get('gen', 0), 'result': 'drift' if drift else 'conforms',
                              'drift_examples': [core.short(d, 300) for d in drift[:3]]},
-        'trace_validation': st, 'exhaustive': False, 'known_findings_reproduced': n_known,
+        'trace_validation': st, 'exhaustive': False, 'known_findings_reproduced': n_known, 'binding_selftest': selftest,
     }
     core.write_evidence(pid, tier, seed, 'model_checking', cov, time.time() - t0, violations=n_viol,
                         assumptions=['TLC', 'str.upper() as the meaning of mask letter U (UpTable written from Python)',
